@@ -36,13 +36,15 @@ impl<'de> Multipart<'de> {
                 }
 
                 let mut files = vec![file];
-                while self.peek().is_some_and(|part| match part {
-                    Part::File { name: next_name, .. } => name == *next_name,
-                    Part::Text { .. } => false,
-                }) {
-                    let Some(Part::File { file, .. }) = self.0.pop()
-                        else {unsafe {std::hint::unreachable_unchecked()}};
-                    files.push(file);
+                /* every remaining file of this name belongs to this field, adjacent or not */
+                let mut i = self.0.len();
+                while i > 0 {
+                    i -= 1;
+                    if matches!(&self.0[i], Part::File { name: next_name, .. } if *next_name == name) {
+                        let Part::File { file, .. } = self.0.remove(i)
+                            else {unreachable!()};
+                        files.push(file);
+                    }
                 }
 
                 Next {
